@@ -3,6 +3,7 @@
 mod drivers;
 mod notation;
 mod rsproj;
+mod rseval;
 mod run;
 mod tsproj;
 mod util;
@@ -24,6 +25,7 @@ fn main() {
         "c04" => drivers::c04::drive(&rest),
         "c05" => drivers::c05::drive(&rest),
         "c06" => drivers::c06::drive(&rest),
+        "c07" => drivers::c07::drive(&rest),
         "c09" => drivers::c09::drive(&rest),
         "c11" => drivers::c11::drive(&rest),
         "c13" => drivers::c13::drive(&rest),
